@@ -395,11 +395,31 @@ theorem threshold_text_props (t : Threshold) (ht : t.WF) :
       · have := (hfrac f hf).2 c hc
         exact ⟨decimal_notHash this, decimal_ne_colon this⟩
 
+/-- `float(threshold)` on the text of a well-formed threshold is the number its digits denote -/
+theorem thrValue_text (t : Threshold) (ht : t.WF) : thrValue t.text = t.value ∧ t.text.isEmpty = false := by
+  obtain ⟨hne, hint, hfrac⟩ := ht
+  have hemp : t.text.isEmpty = false := by
+    unfold Threshold.text
+    cases t.frac <;> simp [hne]
+  refine ⟨?_, hemp⟩
+  unfold thrValue Threshold.value Threshold.text
+  cases hf : t.frac with
+  | none =>
+    have hstop : Stops isDecimal ([] : List Char) := trivial
+    have h1 := takeWhile_stop hint hstop
+    have h2 := dropWhile_stop hint hstop
+    simp only [List.append_nil] at h1 h2
+    simp [h1, h2]
+  | some f =>
+    have hstop : Stops isDecimal ('.' :: f) := by show isDecimal '.' = false; decide
+    simp [takeWhile_stop hint hstop, dropWhile_stop hint hstop]
+
 /-- the fields of the node `_parse_line` builds for a rendered well-formed line -/
 def LineParts.node (fx : Bool) (uod : List String) (p : LineParts) : Node :=
   let k := createNode uod (String.ofList p.name)
   { cls := k.cls, opener := k.opener, ws := false, char := p.indent, indentError := p.indent % 4 != 0,
-    thr := p.scan.thr, namePart := p.scan.namePart, name := p.name, argPart := p.scan.argPart,
+    thr := p.scan.thr, thrVal := p.thr.map Threshold.value,
+    namePart := p.scan.namePart, name := p.name, argPart := p.scan.argPart,
     args := p.arg.getD [], hasArg := p.arg.isSome, hasComment := p.comment.isSome, comment := cmBody p.comment,
     cond := if k.ops.isEmpty then none else some (parseCond fx (k.ops.map String.toList) p.scan.argPart) }
 
@@ -495,8 +515,15 @@ theorem parseLine_render (fx : Bool) (uod : List String) (p : LineParts) (h : p.
     | none => simpa using strip_nil
     | some a => simpa using strip_trimmed_pad (harg a ha).1 hpad
   have hcbool : (c == '#') = false := by simpa using hc
-  unfold parseLine
-  simp only [hst, hcbool, hscan, hhas, hnm, hargs]
+  have hthrv : (if p.scan.thr.isEmpty then none else some (thrValue p.scan.thr)) = p.thr.map Threshold.value := by
+    unfold LineParts.scan
+    cases hthr' : p.thr with
+    | none => simp
+    | some t =>
+      obtain ⟨h1, h2⟩ := thrValue_text t (hthr t hthr')
+      simp [h1, h2]
+  unfold parseLine parseLineE
+  simp only [hst, hcbool, hscan, hhas, hnm, hargs, hthrv]
   simp [LineParts.node, LineParts.scan, cmBody]
 
 end OPM.ParseLine
